@@ -232,7 +232,9 @@ func (p *reqPlan) build() (*http.Request, *countingBody) {
 		}
 	}
 	if p.accept != "" {
-		r.Header.Set("Accept", p.accept)
+		// the accept-extension parameter makes the header text new to the process in every pass of every run (a
+		// header-keyed memo would otherwise be warmed by the solo pass or by an earlier run); it carries no meaning
+		r.Header.Set("Accept", strings.ReplaceAll(p.accept, "%v", passNonce))
 	}
 	r.Header.Set("X-Req", fmt.Sprint(p.idx))
 	if p.key1 != "" {
@@ -246,6 +248,13 @@ func (p *reqPlan) build() (*http.Request, *countingBody) {
 	}
 	return r, body
 }
+
+// acceptPool: single ranges, and several ranges whose textual order is not their preference order.
+var acceptPool = []string{"application/json", "text/plain", "*/*", "", "image/png", "text/plain;q=0.5, application/json",
+	"image/png;v=%v;q=0.1, text/plain;q=0.4, application/json;q=0.9", "*/*;v=%v;q=0.1, application/json", "text/plain;v=%v;q=0.2, application/json;q=0.3"}
+
+// passNonce is written before a pass starts and only read by the tasks.
+var passNonce string
 
 // record is everything observed for one request; comparable with ==.
 type record struct {
@@ -556,6 +565,8 @@ func (prop) Run(t *testing.T, tape *kernel.Tape, sc kernel.Scenario) *kernel.Res
 	flowB := tape.Bool(2, "accessor-flow")
 	plans := make([]reqPlan, n)
 	sameRoute := tape.Choose(len(ops), "popular-op")
+	sharedAccept := tape.Bool(2, "same-accept-header-on-all-requests")
+	nonce := tape.Choose(1000000, "accept-nonce")
 	for i := range plans {
 		p := &plans[i]
 		p.idx = i
@@ -574,7 +585,10 @@ func (prop) Run(t *testing.T, tape *kernel.Tape, sc kernel.Scenario) *kernel.Res
 		p.key2 = []string{"good", "", "bad", "good"}[tape.Choose(4, "key2")]
 		p.deny = tape.Bool(8, "deny")
 		p.ctype = []string{"application/json", "application/vnd.sim+json", "application/json; charset=utf-8", "text/plain", "Application/VND.sim+JSON"}[tape.Choose(5, "ctype")]
-		p.accept = []string{"application/json", "text/plain", "*/*", "", "image/png", "text/plain;q=0.5, application/json"}[tape.Choose(6, "accept")]
+		p.accept = acceptPool[tape.Choose(len(acceptPool), "accept")]
+		if i > 0 && sharedAccept {
+			p.accept = plans[0].accept // one client program sending all requests: the same header text on every one
+		}
 		if flowB {
 			p.program = []int{sRI}
 			ln := 2 + tape.Choose(8, "prog-len")
@@ -588,6 +602,7 @@ func (prop) Run(t *testing.T, tape *kernel.Tape, sc kernel.Scenario) *kernel.Res
 		serve = serveProgram
 	}
 	// ---- solo pass on its own identically built server
+	passNonce = fmt.Sprintf("s%d", nonce)
 	soloSrv := buildServer(cachedDoc, n, nil, plans, salt, true)
 	solo := make([]record, n)
 	est := 0
@@ -598,6 +613,7 @@ func (prop) Run(t *testing.T, tape *kernel.Tape, sc kernel.Scenario) *kernel.Res
 	raceLog.Drain()
 	// ---- concurrent pass
 	k := kernel.NewK2(tape)
+	passNonce = fmt.Sprintf("c%d", nonce)
 	concSrv := buildServer(cachedDoc, n, k.Point, plans, salt, !cold)
 	if cold {
 		env.Fault("cold-start")
